@@ -1283,7 +1283,7 @@ bool Annotator::AnnotatorImpl::validItem(const AnyCellmlElementPtr &item)
         break;
     case CellmlElementType::UNIT: {
         auto unitsItem = item->unitsItem();
-        result = (unitsItem != nullptr) && (unitsItem->units() != nullptr);
+        result = (unitsItem != nullptr) && unitsItem->isValid();
     } break;
     case CellmlElementType::UNITS:
         result = item->units() != nullptr;
@@ -1310,7 +1310,9 @@ void Annotator::AnnotatorImpl::removeId(const AnyCellmlElementPtr &item, const s
 std::string Annotator::AnnotatorImpl::setAutoId(const AnyCellmlElementPtr &item)
 {
     std::string newId;
-    if (validItem(item)) {
+    if (item == nullptr) {
+        addIssueInvalidArgument(CellmlElementType::UNDEFINED);
+    } else if (validItem(item)) {
         if (mModel.lock() != nullptr) {
             auto oldId = id(item);
 
